@@ -613,53 +613,57 @@ theorem analyzeDefaultMember_sat (v : Variant) (m : Module) (mb : StructMember) 
     exact Sat.pure trivial
   · exact Sat.pure trivial
 
+theorem defaultsOf_sat (v : Variant) (m : Module) (st : Struct) : (defaultsOf v m st).Sat (fun _ => True) := by
+  unfold defaultsOf
+  apply Sat.bind (mapRes_sat _ _ (analyzeDefaultMember_sat v m))
+  intro mb _
+  exact Sat.pure trivial
+
+theorem typesOf_sat (v : Variant) (m : Module) (st : Struct) : (typesOf v m st).Sat (fun _ => True) := by
+  unfold typesOf
+  apply Sat.bind (P := fun _ => True)
+  · apply mapRes_sat
+    intro x
+    apply Sat.bind (checkDepTName_sat v _ x.type)
+    intro t _
+    exact Sat.pure trivial
+  intro mb _
+  exact Sat.pure trivial
+
+theorem funcTypes_sat (v : Variant) (m : Module) (fn : Func) : (funcTypes v m fn).Sat (fun _ => True) := by
+  unfold funcTypes
+  apply Sat.bind (P := fun _ => True)
+  · apply mapRes_sat
+    intro a
+    apply Sat.bind (checkDepTName_sat v _ a.type)
+    intro t _
+    exact Sat.pure trivial
+  intro args _
+  apply Sat.bind (P := fun _ => True)
+  · split
+    · exact Sat.ok trivial
+    · apply Sat.bind' (checkDepTName_sat v _ _)
+      intro t' _
+      exact Sat.ok trivial
+  intro ret _
+  exact Sat.pure trivial
+
+theorem ifaceTypes_sat (v : Variant) (m : Module) (i : Interface) : (ifaceTypes v m i).Sat (fun _ => True) := by
+  unfold ifaceTypes
+  apply Sat.bind (mapRes_sat _ _ (funcTypes_sat v m))
+  intro fs _
+  exact Sat.pure trivial
+
 theorem analyze_sat (v : Variant) (f : TarsFile) : (analyze v f).Sat (fun _ => True) := by
   unfold analyze
   split
   · exact Sat.unsupported
   · simp only
-    apply Sat.bind (P := fun _ => True)
-    · apply mapRes_sat
-      intro st
-      apply Sat.bind (mapRes_sat _ _ (analyzeDefaultMember_sat v f.module))
-      intro mb _
-      exact Sat.pure trivial
+    apply Sat.bind (mapRes_sat _ _ (defaultsOf_sat v f.module))
     intro structs1 _
-    apply Sat.bind (P := fun _ => True)
-    · apply mapRes_sat
-      intro st
-      apply Sat.bind (P := fun _ => True)
-      · apply mapRes_sat
-        intro x
-        apply Sat.bind (checkDepTName_sat v _ x.type)
-        intro t _
-        exact Sat.pure trivial
-      intro mb _
-      exact Sat.pure trivial
+    apply Sat.bind (mapRes_sat _ _ (typesOf_sat v _))
     intro structs2 _
-    apply Sat.bind (P := fun _ => True)
-    · apply mapRes_sat
-      intro itf
-      apply Sat.bind (P := fun _ => True)
-      · apply mapRes_sat
-        intro fn
-        apply Sat.bind (P := fun _ => True)
-        · apply mapRes_sat
-          intro a
-          apply Sat.bind (checkDepTName_sat v _ a.type)
-          intro t _
-          exact Sat.pure trivial
-        intro args _
-        apply Sat.bind (P := fun _ => True)
-        · split
-          · exact Sat.ok trivial
-          · apply Sat.bind' (checkDepTName_sat v _ _)
-            intro t' _
-            exact Sat.ok trivial
-        intro ret _
-        exact Sat.pure trivial
-      intro fs _
-      exact Sat.pure trivial
+    apply Sat.bind (mapRes_sat _ _ (ifaceTypes_sat v _))
     intro ifs _
     exact Sat.pure trivial
 
